@@ -17,9 +17,18 @@ index.  The visiting order is read from the scan loop (one variable stepped once
 the behaviour on equal keys from the tie rows of the scan's decision table; scans whose winner's sequence is not used
 (selection, the final edge scans) stay free on ties.
 
-Before the rules run, two exact rewrites bring other spellings back to the shape the rules read (on a copy of the function
+Which bound of 0 <= E < seqlen[X] the guard of begin_seqs[X].first[E] has to establish is read from what E is built from: a
+border element minus a constant needs E >= 0, a border element / a probe between borders needs E < seqlen[X]; an index over
+scalars whose every value comes from constants, parameters, the table of lengths and other such scalars (closed world over
+their initialisers and writes: Cx.plain_scalars) is a position whatever constant is added (`n`, `step - 1`) and needs the upper
+bound; any other written local is read by its shape only while its guard agrees with the shape - guarded by the other bound
+alone it may be a border carried in a scalar, and the answer is `cannot decide`.  The edge of a scan is likewise only read from a
+candidate index that is built from a border element.
+
+Before the rules run, three exact rewrites bring other spellings back to the shape the rules read (on a copy of the function
 with a CFG from engine/cfgbuild.py; whatever cannot be rewritten exactly stays as it is and is then `cannot decide` where it
-matters): calls of local lambdas that are only ever called are replaced by their bodies (inline_local_lambdas), and a local of
+matters): calls of local lambdas that are only ever called are replaced by their bodies (inline_local_lambdas), `(&x)->m(..)` -
+what an inlined helper that took the object by pointer leaves behind - becomes `x.m(..)` (plain_member_calls), and a local of
 a plain aggregate type used field by field / assigned from braced lists is split into one local per field
 (scalarize_structs).  A std::vector kept in heap order exactly the way std::priority_queue is specified (push_back +
 push_heap, pop_heap + pop_back, front) is read as a priority queue with the comparator of the heap calls; a bound carried by a
@@ -668,12 +677,50 @@ def _rebuilt(fn, body):
     return ir.Fn(d2, fn.tu)
 
 
+def plain_member_calls(fn):
+    """-> a copy of fn in which `(&x)->m(..)` reads `x.m(..)`: what is left of a helper that received the object by pointer
+    after the helper has been inlined (engine/normalize.py rewrites `(&x)->field` and `*&x` itself, not the object of a member
+    call).  fn itself if there is no such call."""
+    if fn.body is None:
+        return fn
+
+    def pointee(n):
+        if n.get("member_call") and n.get("arrow") and kids(n):
+            o = kids(n)[0]
+            while o is not None and o["k"] in ("ImplicitCastExpr", "ParenExpr") and kids(o):
+                o = kids(o)[0]
+            if o is not None and o["k"] == "UnaryOperator" and o.get("op") == "&" and kids(o) and kids(o)[0] is not None:
+                return kids(o)[0]
+        return None
+    if not any(pointee(n) is not None for n in fn.nodes()):
+        return fn
+
+    def rec(n):
+        if n is None:
+            return None
+        for key in ("init", "condvar"):
+            if key in n and isinstance(n[key], dict):
+                n[key] = rec(n[key])
+        if "ch" in n:
+            n["ch"] = [rec(c) for c in n["ch"]]
+        x = pointee(n)
+        if x is not None:
+            n = dict(n)
+            n.pop("arrow", None)
+            n["ch"] = [x] + list(n["ch"][1:])
+        return n
+    try:
+        return _rebuilt(fn, rec(copy.deepcopy(fn.body)))
+    except (cfgbuild.Unsupported, normalize.Fail, KeyError, IndexError, TypeError, AttributeError):
+        return fn
+
+
 # ------------------------------------------------------------------------------------------------ per-function context
 class Cx:
     """one instantiation of multisequence_partition / multisequence_selection"""
 
     def __init__(self, fn):
-        fn = scalarize_structs(inline_local_lambdas(fn))
+        fn = scalarize_structs(plain_member_calls(inline_local_lambdas(fn)))
         self.fn = fn
         if len(fn.params) < 5:
             raise ir.AnalysisBroken("%s: public signature (begin_seqs, end_seqs, rank, out, comp) expected" % fn.loc)
@@ -683,6 +730,7 @@ class Cx:
         self.rank = fn.params[2]["did"]
         self._seqlen = None
         self._scans = None
+        self._escaped = None
 
     # -- locals ----------------------------------------------------------------------------------
     def unalias(self, e, use, depth=0):
@@ -732,6 +780,78 @@ class Cx:
     def name(self, did):
         v = self.L.decls.get(did)
         return v.get("name") if v is not None else "?"
+
+    _ARITH = ("+", "-", "*", "/", "%", "<<", ">>", "&", "|", "^", "<", ">", "<=", ">=", "==", "!=", "&&", "||")
+
+    def plain_scalars(self, e):
+        """Closed world for the values of the locals an index is built from: every one of them is an integer local that is only
+        ever initialised / assigned / stepped by expressions over constants, parameters, other such locals, elements of the
+        table of sequence lengths and pure integer functions (std::min, std::max, round_up_to_power_of_two, ..) of those; none of
+        them has its address taken, is captured by reference or handed to a call as an lvalue.  Such an index cannot hold a
+        copy of a border element.  False as soon as anything else is met."""
+        fn, L = self.fn, self.L
+        if self._escaped is None:
+            esc = {c_.get("id") for y in fn.nodes() if y["k"] == "LambdaExpr" for c_ in y.get("captures", []) if c_.get("byref")}
+            esc |= {ref_of(kids(y)[0]) for y in fn.nodes() if y["k"] == "UnaryOperator" and y.get("op") == "&" and kids(y)}
+            for y in fn.nodes():
+                if "callee" in y and not (y["k"] == "CXXOperatorCallExpr" and y.get("op") in ("[]",)) and y["callee"]["name"] not in normalize.PURE_VALUE:
+                    for a_ in kids(y):
+                        if a_ is not None and a_.get("lv") and a_["k"] != "ImplicitCastExpr" and ref_of(a_) is not None:
+                            esc.add(ref_of(a_))
+            self._escaped = esc - {None}
+        slen = self.seqlen_did()
+        params = {p_["did"] for p_ in fn.params}
+        seen = set()
+
+        def int_type(ty):
+            words = (ty or "").replace("const", " ").split()
+            return bool(words) and all(w in ("long", "int", "unsigned", "signed", "short", "char", "size_t", "std::size_t", "ptrdiff_t", "std::ptrdiff_t") for w in words)
+
+        def plain_expr(x):
+            x = strip_casts(x)
+            if x is None:
+                return False
+            k = x["k"]
+            if k in _CASTS and kids(x):
+                return plain_expr(kids(x)[0])
+            if k == "IntegerLiteral" or (const_int(x) is not None and not kids(x)):
+                return True
+            if k == "DeclRefExpr":
+                return plain_var(x["ref"]["id"])
+            if k == "BinaryOperator" and x.get("op") in self._ARITH:
+                return all(plain_expr(c) for c in kids(x))
+            if k == "UnaryOperator" and x.get("op") in ("-", "+", "~", "!"):
+                return plain_expr(kids(x)[0])
+            if k == "ConditionalOperator":
+                return all(plain_expr(c) for c in kids(x))
+            ip = match.index_parts(x)
+            if ip and slen is not None and ref_of(ip[0]) == slen:
+                return plain_expr(ip[1])
+            if "callee" in x and not x.get("member_call") and x["k"] == "CallExpr" and x["callee"]["name"] in normalize.PURE_VALUE:
+                return all(c is not None and plain_expr(c) for c in kids(x))
+            return False
+
+        def plain_var(d):
+            if d in seen:
+                return True
+            seen.add(d)
+            if d in params:
+                return int_type(next(p_.get("ty") for p_ in fn.params if p_["did"] == d))
+            v = L.decls.get(d)
+            if v is None or d in self._escaped or not int_type(v.get("ty")):
+                return False
+            srcs = [kids(v)[0]] if kids(v) and kids(v)[0] is not None else []
+            for w in fn.nodes():
+                if w["k"] not in ("BinaryOperator", "CompoundAssignOperator", "UnaryOperator", "CXXOperatorCallExpr") or writes_to(w)[0] != d:
+                    continue
+                if match.unop(w, ("++", "--")):
+                    continue
+                b = match.binop(w, ("=", "+=", "-=", "*=", "/=", "%=", ">>=", "<<=", "&=", "|=", "^="))
+                if not b or ref_of(b[1]) != d:
+                    return False
+                srcs.append(b[2])
+            return all(plain_expr(s_) for s_ in srcs)
+        return plain_expr(e)
 
     # -- element accesses --------------------------------------------------------------------------
     def seq_access(self, n):
@@ -1009,14 +1129,18 @@ def check_index_guards(ck, cx, tag):
             raise dtable.Undecidable("%s: index of %s is not a linear expression" % (fn.loc, dtable.describe(x)))
         if not f[0] and f[1] == 0:
             return False        # element 0 of a non-empty sequence (precondition)
-        lower = bool(f[0]) and f[1] < 0          # E = E' - c: the element below a border, needs E >= 0
+        # Which of the two bounds of 0 <= E < seqlen[X] the guard has to establish is read from what the index is built from: a
+        # border element minus a constant is the element below a left border (needs E >= 0), a border element / a probe between
+        # two borders is an element at a position (needs E < seqlen[X]).  An index built from scalars whose every value comes
+        # from constants, parameters, other such scalars and the table of lengths (the sampling position n, a block width
+        # step - 1) is a position whatever constant is added: the upper bound.  Any other local (a value that may have been
+        # copied out of a border array, written by something this rule does not read) is judged by its shape only as long as
+        # the guard agrees with the shape: tested against the other bound only, it may be a border in disguise.
+        arrs = cx.arrays_in(E)
+        plain = not arrs and cx.plain_scalars(E)
+        lower = bool(f[0]) and f[1] < 0 and not plain
         if lower:
-            left_arrays.update(cx.arrays_in(E))
-            need = linear.canon({t: k for t, k in f[0].items() if k}, f[1])
-        else:
-            need = L.req(cx.seqlen_at(X), E, True, use=x)
-        if need is None:
-            raise dtable.Undecidable("%s: bound of %s is not a linear expression" % (fn.loc, dtable.describe(x)))
+            left_arrays.update(arrs)
         names = cx.leaf_refs(E, linear_only=True) | cx.leaf_refs(X, linear_only=True)
 
         def effect(n):
@@ -1026,13 +1150,38 @@ def check_index_guards(ck, cx, tag):
             if ip and not any(match.same_expr(ip[1], q[1]) for y in ir.walk(E) for q in [match.index_parts(y)] if q and ref_of(q[0]) == d):
                 return None         # another element of the array
             return "kill"
-        safe = mustfact.MustFact(fn, g, lambda c, t: any(linear.implies(a_, need) for a_ in L.implied(c, t)), effect)
-        st = safe.before(x)
-        if st is None:
-            raise dtable.Undecidable("%s: %s has no position in the control-flow graph" % (fn.loc, dtable.describe(x)))
-        if st is not True and flag_established(cx, x, need, effect):
-            return False        # (flag is false or the bound holds) on every path, and the flag is tested true
-        if st is not True:
+
+        def bound(low):
+            nd = linear.canon({t: k for t, k in f[0].items() if k}, f[1]) if low else L.req(cx.seqlen_at(X), E, True, use=x)
+            if nd is None:
+                raise dtable.Undecidable("%s: bound of %s is not a linear expression" % (fn.loc, dtable.describe(x)))
+            return nd
+
+        def judge(nd):
+            """'exact': on every path to x an edge is exactly nd >= 0 (or a flag carries it); 'stronger': every path passes an edge
+            that implies it, on one of them none is the bound itself; 'none': a path without such an edge"""
+            safe = mustfact.MustFact(fn, g, lambda c, t: any(linear.implies(a_, nd) for a_ in L.implied(c, t)), effect)
+            st = safe.before(x)
+            if st is None:
+                raise dtable.Undecidable("%s: %s has no position in the control-flow graph" % (fn.loc, dtable.describe(x)))
+            if st is not True:
+                # (flag is false or the bound holds) on every path, and the flag is tested true
+                return "exact" if flag_established(cx, x, nd, effect) else "none"
+            exact = mustfact.MustFact(fn, g, lambda c, t: any(linear.same(a_, nd) for a_ in L.implied(c, t)), effect)
+            return "exact" if exact.before(x) is True else "stronger"
+        need = bound(lower)
+        verdict = judge(need)
+        if verdict == "none" and not arrs and not plain:
+            try:
+                other = bound(not lower)
+                other_verdict = judge(other)
+            except ir.AnalysisBroken:
+                other, other_verdict = None, "none"
+            if other_verdict != "none":
+                raise dtable.Undecidable("%s: %s is only reached under a test of its index against %s (%s >= 0), and the index is a local "
+                                         "whose values this rule does not know (it may hold a border): which bound its guard has to establish cannot be read"
+                                         % (fn.loc, dtable.describe(x), "the length of the sequence" if lower else "zero", linear.show(other)))
+        if verdict == "none":
             cx.unread_guard(x, "the bound of %s" % dtable.describe(x), names)
             # positive: a path to x on which every dominating branch was read and none establishes the bound (or the index is
             # written after the test)
@@ -1040,8 +1189,7 @@ def check_index_guards(ck, cx, tag):
                          "%s is read on a path without a test that the index is inside the sequence (needs %s >= 0)"
                          % (dtable.describe(x), linear.show(need)), fn.nloc(x))
             return True
-        exact = mustfact.MustFact(fn, g, lambda c, t: any(linear.same(a_, need) for a_ in L.implied(c, t)), effect)
-        if exact.before(x) is not True:
+        if verdict == "stronger":
             # positive: every path passes an edge that implies the bound, and on one of them none is the bound itself
             ck.violation("GUARD-EXACT", fn.qname, "%s:%s" % (tag, dtable.describe(x)),
                          "%s is only reached under a test that is stronger than `the element exists` (%s >= 0): an existing candidate is skipped"
@@ -1147,6 +1295,11 @@ def find_scans(cx):
             if f is None:
                 raise dtable.Undecidable("%s: candidate index of the scan for %s is not linear" % (fn.loc, sc["var"]["name"]))
             forms.add(bool(f[0]) and f[1] < 0)
+            if not cx.arrays_in(E):
+                # `x - c` is the element below a left border only when x is a border element; a local that is written (a border
+                # carried in a scalar, a position) tells nothing about the edge by its shape
+                raise dtable.Undecidable("%s: the candidate index `%s` of the scan for %s is not built from a border element: the edge it scans "
+                                         "cannot be read" % (fn.loc, dtable.describe(E), sc["var"]["name"]))
             arrays |= cx.arrays_in(E)
         if len(forms) != 1:
             raise dtable.Undecidable("%s: scan for %s takes candidates from both edges" % (fn.loc, sc["var"]["name"]))
